@@ -91,7 +91,7 @@ def run(ctx):
         is_cover = s.get('cover', False)
         for variant in ((1,) if is_cover and quick else (0, 1)):
             text = spell(hist, rng, canonical=(variant == 0))
-            tr = splitfam.tok_trace(len(traces), text, hist)
+            tr = splitfam.tok_trace(len(traces), text, hist, fallback=True)
             ctx.evals()
             if tr is None:
                 unspellable += 1
@@ -103,7 +103,7 @@ def run(ctx):
             if nfin >= 2 or ninner >= 1:
                 ctx.nontrivial(key)
             # metamorphic: replace opaque region bodies; annotation carries over unchanged
-            if variant == 1 and not (is_cover and quick and rng.random() < 0.9):
+            if variant == 1 and not tr.get('fallback') and not (is_cover and quick and rng.random() < 0.9):
                 for vt, rk, span in region_variants(text, rng, 2 if quick else 3):
                     tv = splitfam.tok_trace(len(traces), vt, hist)
                     ctx.evals()
